@@ -562,6 +562,22 @@ func createSwitchStatementChunks(stmt *ast.SwitchStatement, statementIndex int, 
 			if len(branchCases) == 0 && !processedDefaultCase {
 				return remainingChunks, &jump{destChunkID: switchChunk.id}, returnID
 			}
+			if processedDefaultCase && !stmt.Cases[i].IsDefault {
+				// A trailing case without a body does nothing. When the switch has a default
+				// body, the case still needs a destination of its own, or else its value
+				// would be handled by the default case.
+				*chunkCounter++
+				emptyChunk := &chunk{
+					id:         *chunkCounter,
+					returnID:   returnID,
+					statements: []ast.Statement{},
+				}
+				remainingChunks = append(remainingChunks, emptyChunk)
+				branchCases = append(branchCases, &switchCaseBranch{
+					comparisonValue: stmt.Cases[i].Value,
+					destChunkID:     emptyChunk.id,
+				})
+			}
 		} else if !stmt.Cases[i].IsDefault {
 			branchCases = append(branchCases, &switchCaseBranch{
 				comparisonValue: stmt.Cases[i].Value,
